@@ -7,6 +7,7 @@ import (
 	"go/constant"
 	"go/types"
 	"math/big"
+	"sort"
 	"strings"
 )
 
@@ -794,6 +795,20 @@ func (ev *Eval) call(x *ECall) SV {
 			c.Decl("uf:"+sf.Name, fmt.Sprintf("(declare-fun uf_%s (%s) %s)", sf.Name, strings.Join(sorts, " "), rt.Sort))
 			return SV{T: App("uf_"+sf.Name, rt.Sort, as...), Ty: rt}
 		}
+		if sf.Opaque {
+			od := c.opaqueDef(sf, n)
+			var as []T
+			for _, p := range sf.Params {
+				as = append(as, n.vars[p.Name].T)
+			}
+			for _, h := range od.heaps {
+				as = append(as, ev.view.Heap(h.name, h.sort))
+			}
+			if od.usesAlloc {
+				as = append(as, ev.view.AllocTerm())
+			}
+			return SV{T: App("sf_"+sf.Name, rt.Sort, as...), Ty: rt}
+		}
 		r := n.eval(sf.Body)
 		r = n.concretize(r, rt)
 		if r.T.Sort != rt.Sort {
@@ -803,4 +818,98 @@ func (ev *Eval) call(x *ECall) SV {
 	}
 	sfail("unknown function %q in contract", id.Name)
 	return SV{}
+}
+
+// ---- opaque spec functions -------------------------------------------------------------------------------
+//
+// An opaque spec function is not inlined. Its applications stay calls of a declared SMT function whose arguments
+// are the parameters followed by every heap (and the allocation counter) its body reads; the definition is an
+// axiom with the application as trigger, added only to queries that mention the function. A big invariant that a
+// callee's postcondition hands back on syntactically the same heaps is then closed without unfolding.
+
+type opaqueHeap struct{ name, sort string }
+
+type opaqueInfo struct {
+	heaps     []opaqueHeap
+	usesAlloc bool
+	decl      string // declare-fun
+	axiom     string // definitional axiom
+}
+
+// recView records which heaps a spec function body reads and hands out bound variables for them.
+type recView struct {
+	order     []opaqueHeap
+	seen      map[string]bool
+	usesAlloc bool
+}
+
+func (r *recView) Heap(name, sort string) T {
+	if !r.seen[name] {
+		r.seen[name] = true
+		r.order = append(r.order, opaqueHeap{name, sort})
+	}
+	return T{"H!" + name, sort}
+}
+func (r *recView) AllocTerm() T { r.usesAlloc = true; return T{"H!alloc", SInt} }
+
+func (c *Ctx) opaqueDef(sf *SpecFunc, at *Eval) *opaqueInfo {
+	if c.opaque == nil {
+		c.opaque = map[string]*opaqueInfo{}
+	}
+	if od, ok := c.opaque[sf.Name]; ok {
+		if od == nil {
+			sfail("opaque spec func %s is recursive", sf.Name)
+		}
+		return od
+	}
+	c.opaque[sf.Name] = nil
+	rv := &recView{seen: map[string]bool{}}
+	n := &Eval{c: c, pkg: at.pkg, vars: map[string]SV{}, view: rv, bound: at.bound, ex: at.ex}
+	if p, ok := c.TPkgs[sf.PkgPath]; ok {
+		n.pkg = p
+	}
+	var binders, args []string
+	for _, p := range sf.Params {
+		ty := n.resolveType(p.Type)
+		v := T{"a!" + p.Name, ty.Sort}
+		n.vars[p.Name] = SV{T: v, Ty: ty}
+		binders = append(binders, fmt.Sprintf("(%s %s)", v.S, ty.Sort))
+		args = append(args, v.S)
+	}
+	rt := n.resolveType(sf.Result)
+	body := n.concretize(n.eval(sf.Body), rt)
+	if body.T.Sort != rt.Sort {
+		sfail("spec func %s: body has sort %s, declared %s", sf.Name, body.T.Sort, rt.Sort)
+	}
+	// heaps in a fixed order (by name), so that every application lists them the same way
+	hs := append([]opaqueHeap(nil), rv.order...)
+	sort.Slice(hs, func(i, j int) bool { return hs[i].name < hs[j].name })
+	od := &opaqueInfo{heaps: hs, usesAlloc: rv.usesAlloc}
+	var sorts []string
+	for _, p := range sf.Params {
+		sorts = append(sorts, n.vars[p.Name].T.Sort)
+	}
+	for _, h := range hs {
+		binders = append(binders, fmt.Sprintf("(H!%s %s)", h.name, h.sort))
+		args = append(args, "H!"+h.name)
+		sorts = append(sorts, h.sort)
+	}
+	if rv.usesAlloc {
+		binders = append(binders, "(H!alloc Int)")
+		args = append(args, "H!alloc")
+		sorts = append(sorts, SInt)
+	}
+	app := "sf_" + sf.Name
+	if len(args) > 0 {
+		app = "(sf_" + sf.Name + " " + strings.Join(args, " ") + ")"
+	}
+	od.decl = fmt.Sprintf("(declare-fun sf_%s (%s) %s)", sf.Name, strings.Join(sorts, " "), rt.Sort)
+	if len(binders) == 0 {
+		od.axiom = fmt.Sprintf("(assert (= %s %s))\n", app, body.T.S)
+	} else {
+		od.axiom = fmt.Sprintf("(assert (forall (%s) (! (= %s %s) :pattern (%s))))\n", strings.Join(binders, " "), app, body.T.S, app)
+	}
+	c.opaque[sf.Name] = od
+	c.Decl("sf:"+sf.Name, od.decl)
+	return od
 }
